@@ -32,7 +32,8 @@ def tla_set(xs):
 
 
 def consts(ctx, ntasks=2, faults=1, racing=False, kinds=ALLKINDS, layouts=("own", "shared"), states=("CONFIGURED", "RUNNING"),
-           watch=("select", "unsub", "busy"), hooks=("none",), devs=None, strict=False, fine=False, stale=0, mup=0, extras=None):
+           watch=("select", "unsub", "busy"), hooks=("none",), devs=None, strict=False, fine=False, stale=0, mup=0, extras=None,
+           reuse=(False,)):
     d = {c: ctx.deviation_open(k) for c, k in DEVS.items()} if devs is None else devs
     lines = ["  NTasks = %d" % ntasks, "  MaxFaults = %d" % faults, "  Racing = %s" % ("TRUE" if racing else "FALSE"),
              "  MaxStale = %d" % stale, "  MaxMup = %d" % mup,
@@ -43,6 +44,7 @@ def consts(ctx, ntasks=2, faults=1, racing=False, kinds=ALLKINDS, layouts=("own"
         lines.append("  %s = %s" % (c, "TRUE" if d[c] else "FALSE"))
     if extras is not None:
         lines.append("  Extras = %s" % tla_set(extras))
+        lines.append("  ReuseSet = {%s}" % ", ".join("TRUE" if x else "FALSE" for x in reuse))
     return "\n".join(lines)
 
 
@@ -100,12 +102,28 @@ def scenario(sid, shape, script, long_ms, origin="gen"):
         steps += [{"do": "c03track"}]
     wpoint = "env.watch.recv"
     # --- setup: reach the initial state of the model -----------------------------------------
+    reused = bool(shape.get("reused"))
+    create = [{"do": "create", "env": "e1", "wf": wf}]
+    if reused:
+        # The tasks are launched for an earlier environment e0, kept at its teardown and claimed by the environment under test
+        # (--reuseUnlockedTasks). Creation kills every unlocked task first, so e1's creation is held after that (at
+        # envman.create.registered) while e0 is torn down with keepTasks; a claimed task does not report ACTIVE to its new role
+        # by itself: the master's TASK_RUNNING update (e.g. an answer to reconciliation) does.
+        reg, lockp = "envman.create.registered", "task.lock"
+        create = [{"do": "create", "env": "e0", "wf": wf}, {"do": "settle", "ms": 40},
+                  {"do": "gate", "point": reg, "match": me}, {"do": "create", "env": "e1", "wf": wf, "caller": "C"},
+                  {"do": "waitgate", "point": reg, "timeout_ms": 5000},
+                  {"do": "destroy", "env": "e0", "keep_tasks": True}, {"do": "settle", "ms": 60},
+                  {"do": "gate", "point": lockp, "match": me}, {"do": "ungate", "point": reg},
+                  {"do": "waitgate", "point": lockp, "timeout_ms": 5000}, {"do": "ungate", "point": lockp}, {"do": "settle", "ms": 60}]
+        create += [{"do": "masterupdate", "class": t["class"], "kind": "full"} for t in tasks]
+        create += [{"do": "await", "caller": "C", "timeout_ms": 20000}]
     if shape["watch"] == "unsub":
         wpoint = "env.watch.start"
-        steps += [{"do": "gate", "point": wpoint, "match": me}, {"do": "create", "env": "e1", "wf": wf},
+        steps += [{"do": "gate", "point": wpoint, "match": me}] + create + [
                   {"do": "waitgate", "point": wpoint, "timeout_ms": 5000}, {"do": "settle", "ms": 40}]
     else:
-        steps += [{"do": "create", "env": "e1", "wf": wf}, {"do": "settle", "ms": 40}]
+        steps += create + [{"do": "settle", "ms": 40}]
         if shape["watch"] == "busy":
             # the watcher parks while it handles the notification of the preceding transition
             steps += [{"do": "gate", "point": wpoint, "match": me}, {"do": "control", "env": "e1", "op": "START_ACTIVITY"},
@@ -119,6 +137,7 @@ def scenario(sid, shape, script, long_ms, origin="gen"):
     txpoint, ncall = None, 0
     crit_hit = False
     marmed = False
+    sarmed = False
     for s in script:
         if s[0] == "armw":
             steps += [{"do": "gate", "point": wpoint, "match": me}]
@@ -150,6 +169,9 @@ def scenario(sid, shape, script, long_ms, origin="gen"):
             steps += [{"do": "fault", "kind": s[1], "class": cls}]
             if marmed and s[1] != "TASK_FINISHED" and s[1] != "INTERNAL_ERROR":
                 steps += [{"do": "waitgate", "point": "wf.taskrole.merged", "timeout_ms": 3000}]
+            if sarmed and s[1] in ("TASK_FAILED", "TASK_LOST", "TASK_KILLED"):
+                steps += [{"do": "waitgate", "point": "task.state.update", "timeout_ms": 3000},
+                          {"do": "waitstatus", "class": cls, "kind": "INACTIVE", "timeout_ms": 3000}]
             steps += [{"do": "settle", "ms": 60}]
             group = [t for i, t in enumerate(tids, 1) if host_of(shape["layout"], i, n) == host_of(shape["layout"], tids.index(s[2]) + 1, n)]
             hit = group if s[1] in ("EXECUTOR_LOST", "AGENT_LOST") else [s[2]]
@@ -167,6 +189,13 @@ def scenario(sid, shape, script, long_ms, origin="gen"):
             steps += [{"do": "latereply", "class": cls_of[s[1]]}, {"do": "settle", "ms": 60}]
         elif s[0] == "mupdate":
             steps += [{"do": "masterupdate", "class": cls_of[s[1]], "kind": s[2]}, {"do": "settle", "ms": 60}]
+        elif s[0] == "arms":
+            # the state reaction to a terminal status parks at the entry of updateTaskState; the status reaction goes first
+            sarmed = True
+            steps += [{"do": "gate", "point": "task.state.update", "match": {"state": "ERROR"}}]
+        elif s[0] == "releases":
+            sarmed = False
+            steps += [{"do": "ungate", "point": "task.state.update"}, {"do": "settle", "ms": 60}]
         elif s[0] == "armm":
             # the ERROR update of a task role parks between its merge into the role and its forwarding to the parent
             marmed = True
@@ -186,8 +215,9 @@ def scenario(sid, shape, script, long_ms, origin="gen"):
     steps += [{"do": "poll", "env": "e1", "until": ["ERROR"], "timeout_ms": long_ms if crit_hit else 1500},
               {"do": "settle", "ms": 250}, {"do": "snapshot"}]
     model = {"tasks": tasks, "hook": shape["hook"], "layout": shape["layout"], "state": shape["state"], "watch": shape["watch"],
-             "script": script, "origin": origin, "crit_hit": crit_hit}
-    scn = {"id": sid, "family": "C03", "agents": AGENTS, "files": files, "core": {}, "scripts": [], "hooks": hooks, "steps": steps,
+             "reused": reused, "script": script, "origin": origin, "crit_hit": crit_hit}
+    scn = {"id": sid, "family": "C03", "agents": AGENTS, "files": files, "core": {"flags": ["--reuseUnlockedTasks=true"]} if reused else {},
+           "scripts": [], "hooks": hooks, "steps": steps,
            "model": model}
     if any(x[0] in ("latereply", "stale") for x in script) and any(x[0] == "fault" and x[1] in ("EXECUTOR_LOST", "AGENT_LOST") for x in script):
         # After GO_ERROR the watcher sends STOP to every task whose state is RUNNING - also to the dead one whose stale answer made
@@ -202,6 +232,8 @@ def instant_of(shape, script):
     parts = []
     if shape["watch"] in ("busy", "unsub"):
         parts.append("watcher-" + shape["watch"])
+    if shape.get("reused"):
+        parts.append("reused-task")
     seen = False
     for s in script:
         if s[0] == "fault":
@@ -214,6 +246,8 @@ def instant_of(shape, script):
             parts.append("after-master-update-" + s[2])
         elif s[0] == "armm":
             parts.append("error-update-held-after-merge")
+        elif s[0] == "arms":
+            parts.append("status-reaction-first")
         elif s[0] in ("stale", "latereply") and seen:
             parts.append("then-" + ("stale-state" if s[0] == "stale" else "late-answer") + ("-within-grace" if "armf" in [x[0] for x in script]
                          and script.index(s) < [x[0] for x in script].index("releasef") else ""))
@@ -294,7 +328,8 @@ def pick(ctx, cases, quick):
     mixed = lambda c: sorted(c[0]["crit"].values()) == [False, True]
     one = lambda c: len(kinds(c)) == 1
     # every kind x live state x critical / non-critical victim, idle, one executor per task
-    take(lambda c: two(c) and mixed(c) and one(c) and c[0]["watch"] == "select" and c[0]["layout"] == "own" and pattern(c) == ("fault",),
+    take(lambda c: two(c) and mixed(c) and one(c) and c[0]["watch"] == "select" and c[0]["layout"] == "own" and pattern(c) == ("fault",)
+         and not c[0].get("reused"),
          lambda c: (kinds(c), c[0]["state"], victim_crit(c)), 1)
     # racing with START / STOP, parked early and late
     take(lambda c: two(c) and one(c) and c[0]["watch"] == "select" and pattern(c)[0].startswith("api") and len(c[1]) == 3
@@ -307,7 +342,7 @@ def pick(ctx, cases, quick):
          and pattern(c) == ("fault",) and c[0]["watch"] == "select",
          lambda c: (kinds(c), victim_crit(c), c[0]["state"]), 1)
     # refused GO_ERROR
-    take(lambda c: c[0]["hook"] != "none", lambda c: (c[0]["hook"], c[0]["state"], victim_crit(c)), 1 if quick else 2)
+    take(lambda c: c[0]["hook"] != "none" and pattern(c) == ("fault",), lambda c: (c[0]["hook"], c[0]["state"], victim_crit(c)), 1 if quick else 2)
     fault_of = lambda c: [s for s in c[1] if s[0] == "fault"][0]
     steps_of = lambda c: tuple(s[0] for s in c[1])
     # a master-generated TASK_RUNNING update (no executor id / no ids) for the later victim, then every failure kind
@@ -327,8 +362,19 @@ def pick(ctx, cases, quick):
     # ... and the same with the ERROR update held between its merge into the role and its forwarding
     take(lambda c: two(c) and steps_of(c) == ("armm", "fault", "stale", "releasem") and fault_of(c)[2] == c[1][2][1] and c[0]["layout"] == "own",
          lambda c: ((kinds(c) if victim_crit(c) else "non-critical") if quick else (kinds(c), victim_crit(c), c[0]["state"])), 1)
+    # refused GO_ERROR x stale state inside the grace period
+    take(lambda c: two(c) and c[0]["hook"] != "none" and steps_of(c) == ("armf", "fault", "stale", "releasef") and victim_crit(c)
+         and fault_of(c)[2] == c[1][2][1],
+         lambda c: (c[0]["hook"], c[0]["state"]) if quick else (c[0]["hook"], c[0]["state"], kinds(c)), 1)
+    # the status reaction to a terminal status (INACTIVE) completes before the state reaction (ERROR) starts
+    take(lambda c: two(c) and steps_of(c) == ("arms", "fault", "releases") and kinds(c)[0] in ("TASK_FAILED", "TASK_LOST", "TASK_KILLED")
+         and c[0]["layout"] == "own",
+         lambda c: ((kinds(c) if victim_crit(c) else "non-critical") if quick else (kinds(c), victim_crit(c), c[0]["state"])), 1)
+    # reused tasks
+    take(lambda c: two(c) and c[0].get("reused") and steps_of(c) == ("fault",),
+         lambda c: ((kinds(c), c[0]["state"]) if victim_crit(c) else "non-critical") if quick else (kinds(c), c[0]["state"], victim_crit(c)), 1)
     if quick:
-        take(lambda c: c[0]["hook"] == "none", lambda c: 0, 4)
+        take(lambda c: c[0]["hook"] == "none" and not c[0].get("reused"), lambda c: 0, 2)
     else:
         take(lambda c: len(c[0]["crit"]) == 3 and c[0]["hook"] == "none", lambda c: (pattern(c), kinds(c), c[0]["state"]), 1, limit=170)
         take(lambda c: len(kinds(c)) == 2, lambda c: (pattern(c), kinds(c)), 1, limit=170)
@@ -355,7 +401,8 @@ def run(ctx):
     few = ["TASK_FAILED", "TASK_FINISHED", "AGENT_LOST", "INTERNAL_ERROR"]
     # idle environment: every kind, a stale healthy state message of the dead task, a master-generated TASK_RUNNING update
     ctx.model_check("Failure", None, workers=w, cfg_text=cfg_model(ctx, stale=1, mup=1))
-    ctx.model_check("Failure", None, workers=w, cfg_text=cfg_model(ctx, hooks=("early", "late"), kinds=["TASK_FAILED", "AGENT_LOST"] if quick else ALLKINDS,
+    ctx.model_check("Failure", None, workers=w, cfg_text=cfg_model(ctx, hooks=("early", "late"), stale=1,
+                                                                   kinds=["TASK_FAILED", "AGENT_LOST"] if quick else ALLKINDS,
                                                                    watch=("select",) if quick else ("select", "unsub", "busy")))
     # the role update in separate steps (merge, publish, forward, root merge, send) against a stale message of the same task
     ctx.model_check("Failure", None, workers=w, cfg_text=cfg_model(ctx, fine=True, stale=1, watch=("select",), layouts=("own",),
@@ -432,7 +479,12 @@ def run(ctx):
     # a master-generated TASK_RUNNING update before the fault; a task that dies owing its answer to the racing transition;
     # a stale healthy state message of the dead task - within and beyond the watcher's 500 ms
     n5 = gen(racing=True, stale=1, mup=1, kinds=NOT_IE, watch=("select",), layouts=("own",) if quick else ("own", "shared"),
-             extras=("mup", "owed", "stale"))
+             extras=("mup", "owed", "stale", "order"))
+    # a refused GO_ERROR (failing critical before_GO_ERROR hook) x a stale healthy state inside the watcher's grace period:
+    # the forced state must be ERROR whatever the workflow says by then
+    n5 += gen(hooks=("early", "late"), stale=1, kinds=["TASK_FAILED", "TASK_KILLED"], watch=("select",), layouts=("own",), extras=("stale",))
+    # failures of reused tasks (launched for an earlier environment: their executor's events still name that one)
+    n5 += gen(kinds=["INTERNAL_ERROR", "TASK_FAILED", "AGENT_LOST"], watch=("select",), layouts=("own",), reuse=(True,))
     # the ERROR update of the victim's role held between merge and forwarding while a stale state message goes through
     n5 += gen(fine=True, stale=1, kinds=NOT_IE, watch=("select",), layouts=("own",) if quick else ("own", "shared"), extras=("merge",))
     n3 = n4 = 0
@@ -483,6 +535,8 @@ def judge(ctx, scenarios, lines, cex_cases):
             return {"ev": ev, "scn": scn, "model": {"tasks": m.get("tasks", []), "hook": m.get("hook", "none")}}
         if ev == "MAccept":
             return {"ev": ev, "scn": scn, "tasks": [{"class": t["class"], "agent": t["agent"], "executor": t["executor"]} for t in ln["tasks"]]}
+        if ev in ("Api", "ApiReply") and ln.get("env", "e1") not in ("e1", ""):
+            return None   # the earlier environment a reused task was launched for
         if ev == "Api":
             return {"ev": ev, "scn": scn, "call": ln.get("call", ""), "op": ln.get("op", "")}
         if ev == "ApiReply":
@@ -513,24 +567,35 @@ def judge(ctx, scenarios, lines, cex_cases):
     per = {}
     for ln in lines:
         per.setdefault(ln.get("scn", -1), []).append(ln)
+    unscripted = {}
     for s in scenarios:
         tr = per.get(s["id"], [])
         bad = [x for x in tr if (x["ev"] == "Fault" and not x.get("ok")) or (x["ev"] == "End" and x.get("tainted"))]
         # the setup (creation, the synchronous START / STOP that lead to the initial state of the script) must have worked:
         # a failed deployment is harness trouble, never a verdict
+        insetup = True
         for x in tr:
-            if x["ev"] in ("Fault", "MasterUpdate") or (x["ev"] == "Api" and x.get("caller")):
-                break
-            if x["ev"] == "ApiReply" and (x.get("code") != "OK" or (x.get("call") == "create" and x.get("st") != "CONFIGURED")):
+            if x["ev"] == "Fault" or (x["ev"] == "MasterUpdate" and not s["model"].get("reused")) or (
+                    x["ev"] == "Api" and x.get("caller") and x.get("call") != "create"):
+                insetup = False
+            if x["ev"] == "ApiReply" and x.get("call") == "create" and (x.get("code") != "OK" or x.get("st") != "CONFIGURED"):
                 bad.append(x)
+            elif insetup and x["ev"] == "ApiReply" and x.get("code") != "OK":
+                bad.append(x)
+        if s["model"].get("reused") and not any(x["ev"] == "Hook" and x.get("point") == "task.lock" and x.get("reused") for x in tr):
+            bad.append({"ev": "no task was reused"})
         # a gate that nobody reached: the run is still a real execution (judged on its recorded facts), but not the intended schedule
         missed = [x["point"] for x in tr if x["ev"] == "GateReached" and not x.get("ok")]
         if missed:
             ctx.extra["gates_not_reached"] = ctx.extra.get("gates_not_reached", 0) + 1
             ctx.observations.append("scenario %d %s: nobody arrived at gate %s" % (s["id"], s["model"]["script"], missed))
         if bad or not any(x["ev"] == "End" for x in tr):
+            # not judged; inconclusive unless the scenarios that did run as scripted show a violation (see below)
             ctx.save_debug(type("R", (), {"out": "\n".join(json.dumps(x) for x in tr)})(), "scn%d.ndjson" % s["id"])
-            raise vlib.Inconclusive("scenario %d did not run as scripted (%s): %s" % (s["id"], s["model"]["script"], bad[:2]))
+            unscripted[s["id"]] = "scenario %d did not run as scripted (%s): %s" % (s["id"], s["model"]["script"], bad[:2])
+    lines = [ln for ln in lines if ln.get("scn", -1) not in unscripted]
+    if len(unscripted) > max(2, len(scenarios) // 10) or len(unscripted) == len(scenarios):
+        raise vlib.Inconclusive("; ".join(list(unscripted.values())[:2]))
     tf = cs.write_trace(ctx, lines, keep=proj)
     ctx.sample({"scenario_model": scenarios[-1]["model"], "steps": scenarios[-1]["steps"]})
     if cex_cases:
@@ -555,6 +620,10 @@ def judge(ctx, scenarios, lines, cex_cases):
         m = s.get("model", {})
         trl = per.get(scn, [])
         ctx.add_violation(signature(inv, scn, m, trl, v), replay_obj={"scenario": s, "trace": trl})
+    if unscripted and not ctx.violations:
+        raise vlib.Inconclusive("; ".join(list(unscripted.values())[:2]))
+    for msg in unscripted.values():
+        ctx.observations.append(msg[:300])
     # a model counterexample counts only if the real run shows it
     for i, (key, inv, shape, script) in enumerate(cex_cases, 1):
         if inv not in flagged.get(i, set()):
@@ -584,7 +653,7 @@ def signature(inv, scn, m, trl, v):
     script = m.get("script", [])
     crit = {t["id"]: t["crit"] for t in m.get("tasks", [])}
     faults = [x for x in script if x[0] == "fault"]
-    shape = {"watch": m.get("watch"), "layout": m.get("layout")}
+    shape = {"watch": m.get("watch"), "layout": m.get("layout"), "reused": m.get("reused")}
     # the fault the violation is about: the first one that hits a critical task for ErrorReached / RunEndRecorded,
     # the first one otherwise
     tids = sorted(crit)
